@@ -194,7 +194,18 @@ def check(chk):
         chk.judge(bool(all_calls), 'C10.swap', ear, 'each callback runs inside try/except', 'a raising callback would stop the remaining requests from being failed')
         chk.judge('ConnectionShutdown(' in src(ear), 'C10.swap', ear, 'callbacks receive a ConnectionShutdown', 'callbacks no longer receive a connection error')
     cps = conn.func('Connection.error_all_cp_sessions')
-    chk.judge('.on_error(exc)' in src(cps) and 'list(self._continuous_paging_sessions.keys())' in src(cps), 'C10.swap', cps,
+    # a loop over a snapshot of the session table (list / tuple of the dict, its keys, values or items - not the live dict), calling on_error(exc) on each session
+    from ..sem import resolve as _res10
+    loops_cp = [n for n in body_walk(cps) if isinstance(n, ast.For)]
+    ok_cp = False
+    for lp_ in loops_cp:
+        it_ = _res10(cps, lp_.iter)
+        snap = isinstance(it_, ast.Call) and src(it_.func) in ('list', 'tuple') and len(it_.args) == 1 and src(it_.args[0]) in (
+            'self._continuous_paging_sessions', 'self._continuous_paging_sessions.keys()', 'self._continuous_paging_sessions.values()', 'self._continuous_paging_sessions.items()')
+        calls_ = [c_ for c_ in ast.walk(lp_) if isinstance(c_, ast.Call) and isinstance(c_.func, ast.Attribute) and c_.func.attr == 'on_error' and [src(a_) for a_ in c_.args] == ['exc']]
+        top = all(any(c_ is x_ for st_ in lp_.body if not isinstance(st_, (ast.If, ast.Try)) for x_ in ast.walk(st_)) for c_ in calls_)
+        ok_cp = ok_cp or (snap and len(calls_) == 1 and top)
+    chk.judge(ok_cp, 'C10.swap', cps,
               'every continuous paging session gets on_error(exc) (iterating a snapshot)', 'continuous paging sessions are no longer failed')
 
     # ---- reactors
